@@ -189,7 +189,10 @@ def verdict(kind, r, expect):
     return True, ""
 
 
-entries = [e for e in OLD if not MINE.match(e["name"])]
+entries, _seen = [], set()
+for e in OLD:      # foreign (hand-maintained) entries are kept once, as they were
+    if not MINE.match(e["name"]) and e["name"] not in _seen and not e.get("disabled"):
+        entries.append(e); _seen.add(e["name"])
 summary = {}
 problems = []
 for name in sorted(RES):
